@@ -827,9 +827,12 @@ Print Assumptions C01_statement_special_nobase.
 (* ===== the proved classes assembled (task c01asm) ===== *)
 From RU Require Import Proofs.C01_EqAsm.
 
-(* in_proved_class3 = no base: opaque path | "scheme:/path" | "scheme://authority" (non-special) | special
-   non-file scheme;  base: '#' | '?' | empty reference | opaque-base failure | the three relative-reference
-   classes against a non-special base.  It contains in_proved_class2 (C01_class3_contains_class2).
+(* in_proved_class3 = no base (in_proved_nobase3): opaque path | "scheme:/path" | "scheme://authority"
+   (non-special) | special non-file scheme | no scheme (failure on both sides);  base: '#' | '?' | empty
+   reference | opaque-base failure | the three relative-reference classes against a non-special base | a
+   reference with a scheme of its own that makes both sides ignore the base (in_class_abs_base, see the block
+   'references with a scheme of their own' below) and that is in a no-base class.
+   It contains in_proved_class2 (C01_class3_contains_class2).
    ONE base relation: base_rel3 = no base on both sides, or a pair in good_base = `related` and spec_base_ok
    (lower-case scheme, no '/' inside a path segment of the Standard's record).
    ONE host hypothesis: host_hyp3 = on the one string class_host_query says the class applies a host
@@ -1102,4 +1105,94 @@ Example C01_statement_nobase_nonvacuous :
                             /\ spec_scheme (spec_clean i2) = None
      | _, _ => False
      end.
+Proof. vm_compute. repeat split. Qed.
+
+(* ===== references with a scheme of their own, when a base is given (task c01asm) ===== *)
+From RU Require Import Proofs.C01_EqAbs.
+
+(* the Standard's side: for a non-special scheme the result is a function of (scheme, text after ':')
+   alone, whatever the base *)
+Theorem C01_nonspecial_any_base : forall shp base input sch R,
+  spec_scheme (spec_clean input) = Some (sch, R) -> is_special_scheme sch = false ->
+  outcome_is (spec_basic_url_parse shp input base) (nonspecial_result shp sch R).
+Proof. exact spec_nonspecial_any. Qed.
+Print Assumptions C01_nonspecial_any_base.
+
+(* base_ignored sbase sch: sch is not "file", and it is non-special or not the scheme of the base.  Then the
+   Standard's parser returns what it returns without base (same record, or failure on both), and parser.rs
+   does literally the same call (parse_non_special / after_double_slash) *)
+Theorem C01_base_ignored_spec : forall shp sbase input sch R,
+  spec_scheme (spec_clean input) = Some (sch, R) -> base_ignored sbase sch = true ->
+  outcome_eq (spec_basic_url_parse shp input sbase) (spec_basic_url_parse shp input None).
+Proof. exact spec_base_ignored. Qed.
+Print Assumptions C01_base_ignored_spec.
+
+Theorem C01_base_ignored_model : forall dbg hp hpo hd ovr b sb shs input sch R,
+  related dbg shs b sb -> spec_scheme (spec_clean input) = Some (sch, R) -> base_ignored (Some sb) sch = true ->
+  parse_url dbg hp hpo hd ovr (Some b) input = parse_url dbg hp hpo hd ovr None input.
+Proof. exact model_base_ignored. Qed.
+Print Assumptions C01_base_ignored_model.
+
+(* coverage: against ANY good_base pair (special, file and opaque-path bases included) a reference with a
+   non-special scheme, or with a special scheme other than the scheme of the base, outside Known_C01 is in
+   in_proved_class3 *)
+Theorem C01_class3_complete_own_scheme : forall sb b input sch R,
+  spec_scheme (spec_clean input) = Some (sch, R) ->
+  is_special_scheme sch = false \/ list_eqb (su_scheme sb) sch = false ->
+  known_c01 (Some b) input = 0 -> in_proved_class3 (Some sb) input = true.
+Proof. exact own_scheme_base_covers. Qed.
+Print Assumptions C01_class3_complete_own_scheme.
+
+(* hence C01_statement for these (base, reference) pairs *)
+Theorem C01_statement_own_scheme_base : forall dbg hp hpo hd shp shs b sb input sch R,
+  usv_list input -> good_base dbg shs b sb -> spec_scheme (spec_clean input) = Some (sch, R) ->
+  is_special_scheme sch = false \/ list_eqb (su_scheme sb) sch = false ->
+  known_c01 (Some b) input = 0 ->
+  host_hyp3 hp hpo hd shp shs (Some sb) input ->
+  agree_good dbg shs (parse_url dbg hp hpo hd None (Some b) input) (spec_basic_url_parse shp input (Some sb)).
+Proof. exact statement_own_scheme_base. Qed.
+Print Assumptions C01_statement_own_scheme_base.
+
+Theorem C01_statement_own_scheme_base_model : forall dbg idna, IdnaOK idna -> forall b sb input sch R,
+  usv_list input -> good_base dbg spec_host_serializer b sb -> spec_scheme (spec_clean input) = Some (sch, R) ->
+  is_special_scheme sch = false \/ list_eqb (su_scheme sb) sch = false ->
+  known_c01 (Some b) input = 0 ->
+  agree_good dbg spec_host_serializer
+    (parse_url dbg (host_parse idna) host_parse_opaque host_display None (Some b) input)
+    (spec_basic_url_parse (spec_host_parser idna) input (Some sb)).
+Proof. exact statement_own_scheme_base_model. Qed.
+Print Assumptions C01_statement_own_scheme_base_model.
+
+(* non-vacuity: the parse result of "http://example.com/a" (a special base, obtained from the theorem itself) as
+   base; "https://h.x/p", "n://H/q" and "mailto:z" against it are in in_proved_class3, outside Known_C01, the host
+   query is the one of the no-base class, and both sides agree; "http:b" (same scheme as the base) is NOT
+   in the class - there the base is consulted *)
+Example C01_own_scheme_nonvacuous :
+  let idna := ex_idna_clean in
+  let shp := spec_host_parser idna in
+  let P base i := parse_url true (host_parse idna) host_parse_opaque host_display None base i in
+  let S sbase i := spec_basic_url_parse shp i sbase in
+  let i0 := [104; 116; 116; 112; 58; 47; 47; 101; 120; 97; 109; 112; 108; 101; 46; 99; 111; 109; 47; 97] in
+  let i1 := [104; 116; 116; 112; 115; 58; 47; 47; 104; 46; 120; 47; 112] in
+  let i2 := [110; 58; 47; 47; 72; 47; 113] in
+  let i3 := [109; 97; 105; 108; 116; 111; 58; 122] in
+  let i4 := [104; 116; 116; 112; 58; 98] in
+  match P None i0, S None i0 with
+  | POk u0, BDone su0 =>
+      in_proved_class3 (Some su0) i1 = true /\ in_proved_class3 (Some su0) i2 = true
+      /\ in_proved_class3 (Some su0) i3 = true /\ in_proved_class3 (Some su0) i4 = false
+      /\ known_c01 (Some u0) i1 = 0 /\ known_c01 (Some u0) i2 = 0 /\ known_c01 (Some u0) i3 = 0
+      /\ class_host_query (Some su0) i1 = Some (false, [104; 46; 120])
+      /\ class_host_query (Some su0) i2 = Some (true, [72])
+      /\ match P (Some u0) i1, S (Some su0) i1 with
+         | POk u, BDone su => q_href u = i1 /\ api_of_model true u = Some (spec_api_list spec_host_serializer su)
+         | _, _ => False end
+      /\ match P (Some u0) i2, S (Some su0) i2 with
+         | POk u, BDone su => q_href u = i2 /\ api_of_model true u = Some (spec_api_list spec_host_serializer su)
+         | _, _ => False end
+      /\ match P (Some u0) i3, S (Some su0) i3 with
+         | POk u, BDone su => q_href u = i3 /\ api_of_model true u = Some (spec_api_list spec_host_serializer su)
+         | _, _ => False end
+  | _, _ => False
+  end.
 Proof. vm_compute. repeat split. Qed.
